@@ -145,15 +145,6 @@ fn max_abs(v: &Y) -> f64 {
         _ => 0.0,
     }
 }
-/// largest |x| outside the range in which serde_json's default float parser is within 1 ulp
-fn has_extreme(v: &Y) -> bool {
-    match v {
-        Y::Number(n) => n.is_f64() && n.as_f64().map(|x| x.is_finite() && x != 0.0 && !(1e-60..1e60).contains(&x.abs())).unwrap_or(false),
-        Y::Sequence(l) => l.iter().any(has_extreme),
-        Y::Mapping(m) => m.iter().any(|(_, x)| has_extreme(x)),
-        _ => false,
-    }
-}
 
 fn ulp_dist(a: f64, b: f64) -> u64 {
     if a.is_nan() && b.is_nan() {
@@ -538,7 +529,7 @@ impl<'a> Run<'a> {
     }
 
     /// all round-trip clauses on one object; returns the reloaded copies (for resuming simulations)
-    fn check<T: Obj>(&mut self, case: &str, kind: &str, x: &T, emit_ops: bool) -> Vec<(Fmt, T)> {
+    fn check<T: Obj>(&mut self, case: &str, kind: &str, x: &T, emit_ops: bool) -> Vec<(Fmt, T, bool)> {
         self.n_obj += 1;
         let tx = tree(x);
         let mut hits = vec![];
@@ -547,7 +538,6 @@ impl<'a> Run<'a> {
         let hit = !hits.is_empty();
         let nonfinite = has_nonfinite(&tx);
         let nan = has_nan(&tx);
-        let extreme = has_extreme(&tx);
         self.ctx.count(&format!("serde.obj.{}.{}", T::NAME, kind));
         self.ctx.count(&format!("serde.class.{}{}", if hit { "skipped_field_at_default" } else { "no_skipped_field" }, if nonfinite { "+nonfinite" } else { "" }));
         let mut out = vec![];
@@ -579,17 +569,13 @@ impl<'a> Run<'a> {
             self.ctx.count(&format!("serde.rt_ok.{fname}"));
             // --- the reloaded object equals the original (modulo `skip` caches)
             let t1 = tree(&x1);
-            // serde_json's default float parser is within 1 ulp except at extreme exponents (measured:
-            // 2 ulps around 1e-77); objects holding such magnitudes (corpus only) get 2
-            let tol = if f == Fmt::Json { Tol::Ulps(if extreme { 2 } else { 1 }) } else { Tol::Bits };
+            // the property: bit-exact for YAML and binary, within one unit in the last place per number
+            // for JSON (with serde_json's `float_roundtrip` the JSON reload is bit-exact too: counted)
+            let tol = if f == Fmt::Json { Tol::Ulps(1) } else { Tol::Bits };
             let (r1, c1) = cmp_trees(&t1, &tx, tol);
             self.ctx.checked(P, &format!("reload_equal_{fname}"));
             if f == Fmt::Json {
-                if !extreme {
-                    self.max_ulps_json = self.max_ulps_json.max(c1.max_ulps.min(1 << 20));
-                } else if c1.max_ulps > 1 {
-                    self.ctx.count("serde.json.extreme_exponent_off_by_2ulps");
-                }
+                self.max_ulps_json = self.max_ulps_json.max(c1.max_ulps.min(1 << 20));
                 self.ctx.count_n("serde.json.numbers", c1.n_numbers);
                 self.ctx.count_n("serde.json.numbers_inexact", c1.n_inexact);
             }
@@ -648,7 +634,7 @@ impl<'a> Run<'a> {
                 }
                 None => self.fail(&format!("second_roundtrip_{fname}"), case, format!("format={fname} type={} state={kind}: second round trip PANICKED", T::NAME), x, f),
             }
-            out.push((f, x1));
+            out.push((f, x1, c1.n_inexact == 0));
         }
         // --- file API (extension dispatch), now and then
         if self.files && self.n_obj % 7 == 1 {
@@ -664,7 +650,7 @@ impl<'a> Run<'a> {
                 });
                 let _ = std::fs::remove_file(&path);
                 let ok = match &r {
-                    Some(Ok(x1)) => cmp_trees(&tree(x1), &tx, if f == Fmt::Json { Tol::Ulps(if extreme { 2 } else { 1 }) } else { Tol::Bits }).0.is_ok(),
+                    Some(Ok(x1)) => cmp_trees(&tree(x1), &tx, if f == Fmt::Json { Tol::Ulps(1) } else { Tol::Bits }).0.is_ok(),
                     _ => false,
                 };
                 if !ok {
@@ -781,7 +767,7 @@ impl<'a> Run<'a> {
                 // which error ended the run (distribution only)
                 let mut again = snaps.last().unwrap().clone();
                 if let Some(Err(e)) = guard(|| again.step1()) {
-                    let key: String = e.lines().filter(|l| !l.trim().is_empty()).last().unwrap_or("").chars().filter(|c| c.is_ascii_alphanumeric() || *c == ' ' || *c == '_').take(50).collect();
+                    let key: String = e.lines().filter(|l| !l.trim().is_empty()).last().unwrap_or("").chars().filter(|c| c.is_ascii_alphabetic() || *c == ' ' || *c == '_').take(50).collect();
                     self.ctx.count(&format!("serde.sim.{}.error.{}", S::NAME, key.trim().replace(' ', "_")));
                 }
                 break;
@@ -798,7 +784,7 @@ impl<'a> Run<'a> {
         for (k, x) in snaps.iter().enumerate() {
             let kind = if k == 0 { "initial" } else { "midrun" };
             let copies = self.check(&format!("{case}@{k}"), kind, x, ops_every > 0 && k % ops_every == 0);
-            for (f, x1) in copies {
+            for (f, x1, reload_exact) in copies {
                 let fname = f.name();
                 let mut y = x1;
                 let got = advance(&mut y, outcome.len() - k);
@@ -811,7 +797,9 @@ impl<'a> Run<'a> {
                 }
                 self.ctx.checked(P, &format!("resume_same_trajectory_{fname}"));
                 let ty = tree(&y);
-                let tol = if f == Fmt::Json { Tol::Close { rel: 1e-9, abs: 1e-12 * scale } } else { Tol::Bits };
+                // a bit-exact reload must continue bit-exactly; a JSON reload that is off by rounding
+                // (≤ 1 ulp per number, allowed by the property) continues within 1e-9 relative
+                let tol = if reload_exact { Tol::Bits } else { Tol::Close { rel: 1e-9, abs: 1e-12 * scale } };
                 let (r, c) = cmp_trees(&ty, &tfin, tol);
                 if f == Fmt::Json {
                     self.max_rel_json_resume = self.max_rel_json_resume.max(c.max_rel);
@@ -852,21 +840,27 @@ impl<'a> Run<'a> {
 fn gen_power_trace(r: &mut Rng, n: usize, lo: f64, hi: f64, first_brakes: bool) -> PowerTrace {
     let mut t = vec![0.0];
     let mut p = vec![0.0];
+    let mut on: Vec<Option<bool>> = vec![Some(true)];
     let mut cur: f64 = 0.0;
     for i in 0..n {
         let dt = *r.pick(&[0.5, 1.0, 1.0, 1.0, 2.0]);
         t.push(t.last().unwrap() + dt);
-        let step = (hi - lo) * 0.08;
+        // slow ramps: engines publish a transient limit that grows by rating/lag per second
+        let step = (hi - lo) * 0.03;
         cur = (cur + r.f64_in(-step, step * 1.5)).max(lo).min(hi);
         if i == 0 && first_brakes {
             cur = lo * 0.5;
         }
         if r.chance(0.1) {
-            cur = 0.0;
+            cur = cur.min(0.0);
+        }
+        let e = if r.chance(0.9) { Some(true) } else if r.chance(0.6) { None } else { Some(false) };
+        if e == Some(false) {
+            cur = 0.0; // a switched-off engine with a power demand is rejected by the crate
         }
         p.push(cur);
+        on.push(e);
     }
-    let on: Vec<Option<bool>> = (0..t.len()).map(|_| if r.chance(0.85) { Some(true) } else if r.chance(0.5) { None } else { Some(false) }).collect();
     PowerTrace::new(t, p, on)
 }
 
@@ -1178,10 +1172,17 @@ pub fn run(ctx: &mut Ctx, r: &mut Rng, tier: &str) {
         let pt2 = PowerTrace::new(vec![0.0, -0.0, 5e-324, 2.2250738585072014e-308, 1.7976931348623157e308],
             vec![1e-77, 3.0e-200, 0.1 + 0.2, 1.0 / 3.0, 123456789.12345679], vec![None; 5]);
         run.check("corpus.extreme", "corpus", &pt2, true);
+        // magnitudes at which serde_json WITHOUT `float_roundtrip` drifts by one ulp per trip
+        // (measured: 8 % of the numbers in [1e-12, 1e-6) are > 1 ulp off after 4 trips); fixed seed
+        let mut q = Rng::new(0xC17);
+        let small: Vec<f64> = (0..400).map(|_| 1e-12 * 1e6f64.powf(q.unit())).collect();
+        let large: Vec<f64> = (0..400).map(|_| 1e30 * 1e40f64.powf(q.unit())).collect();
+        let pt3 = PowerTrace::new(small, large, vec![None; 400]);
+        run.check("corpus.json_drift_magnitudes", "corpus", &pt3, false);
     }
 
     // ---- generated objects in construction state
-    let n_comp = if thorough { 60 } else { 6 };
+    let n_comp = if thorough { 80 } else { 10 };
     for i in 0..n_comp {
         let mut q = r.fork();
         let c = format!("gen{i}");
@@ -1218,7 +1219,7 @@ pub fn run(ctx: &mut Ctx, r: &mut Rng, tier: &str) {
     }
 
     // ---- simulations: every step index is a checkpoint
-    let (n_sims, n_steps) = if thorough { (24, 40) } else { (2, 14) };
+    let (n_sims, n_steps) = if thorough { (30, 40) } else { (4, 18) };
     for i in 0..n_sims {
         let mut q = r.fork();
         let s = gen_loco_sim(&mut q, n_steps);
